@@ -6,6 +6,10 @@ _NOTE = ("Bounded: holds for all values within the bounds recorded in the eviden
 _TECH = "symbolic execution of the real Python code on z3-backed proxy values (BV64/Float64/Real), branch decisions and obligations decided by z3, counterexamples replayed concretely"
 
 CLAIMS = {
+    "C16": {
+        "text": "Bounded symbolic model checking of one inductive step of the pending-message buffer through the public send API: from q = 0..10 held messages with free (solver-chosen) expiries and a free clock, one more send with a free policy; expired-first purge, capacity check against the module's constant, overflow error leaving held entries untouched, and the exact frames written after the link comes up are compared with reference semantics on every ordering class of the instants (z3 Real).",
+        "note": _NOTE, "technique": _TECH, "design_ref": "DESIGN.md section 6 C16",
+    },
     "C06": {
         "text": "Bounded symbolic model checking of the real CRC and receive path: calculate/validate equal the bitwise CRC-16/MODBUS reference for every buffer up to the stated length (z3 equivalence query per length, plus injectivity of the 2-byte register map so that every (register, byte) step is exercised); the real _read loop on a damaged frame delivers only what the reference receiver accepts and otherwise resets and recovers; which error classes CRC-16 detects is proved on the reference by z3 lemmas.",
         "note": _NOTE, "technique": _TECH, "design_ref": "DESIGN.md section 6 C06",
